@@ -426,6 +426,20 @@ func (v *visitor) MethodNode(node *ast.MethodNode) reflect.Type {
 	return nil
 }
 
+// isOverloaded reports a binary node that resolves to an operator overload
+// (with the operand types the checker has given it).
+func (v *visitor) isOverloaded(node ast.Node) bool {
+	n, ok := node.(*ast.BinaryNode)
+	if !ok {
+		return false
+	}
+	if fns, ok := v.operators[n.Operator]; ok {
+		_, _, ok := conf.FindSuitableOperatorOverload(fns, v.types, n.Left.Type(), n.Right.Type())
+		return ok
+	}
+	return false
+}
+
 // checkFunc checks func arguments and returns "return type" of func or method.
 func (v *visitor) checkFunc(fn reflect.Type, method bool, node ast.Node, name string, arguments []ast.Node) reflect.Type {
 	if isInterface(fn) {
@@ -488,18 +502,21 @@ func (v *visitor) checkFunc(fn reflect.Type, method bool, node ast.Node, name st
 		// Integer literals (and arithmetic on them) adapt to a numeric parameter
 		// like Go's untyped constants; any other argument keeps its own type
 		// and must be assignable.
-		if isIntegerOrArithmeticOperation(arg) && hasDynamicOperand(arg) {
+		if v.isOverloaded(arg) {
+			// An overloaded operator is a call: its result keeps its type
+			// and its operands their own.
+		} else if isIntegerOrArithmeticOperation(arg) && hasDynamicOperand(arg) {
 			// The kind of the result is only known at run time: literals
 			// must keep their own type, as in an untyped compilation.
 			t = interfaceType
 		} else if isIntegerOrArithmeticOperation(arg) && isInteger(t) && !isInterface(t) && isNumber(in) && !isInterface(in) {
 			// As for Go's untyped constants, a literal that does not fit
 			// the parameter's type is an error, not a silent wrap-around.
-			if lit, ok := overflowingLiteral(arg, in, false); ok {
+			if lit, ok := overflowingLiteral(arg, in, false, v.isOverloaded); ok {
 				return v.error(lit, "constant %v overflows %v", lit.Value, in)
 			}
 			t = in
-			setTypeForIntegers(arg, t)
+			setTypeForIntegers(arg, t, v.isOverloaded)
 		}
 
 		if t == nil {
